@@ -451,7 +451,7 @@ class GateSim(PeerSim):
             elif defect == "seq_alpha":
                 seq = ["abc", "1x", ""][w % 3]
             self.app_id += 1
-            body = {"A": [("98", "0"), ("108", self.cfg["hb"])], "0": [], "1": [("112", f"Q{self.app_id}")],
+            body = {"A": [("98", "0"), ("108", self.cfg["hb"])], "0": [], "1": [("112", (f"Q\u00e9\u4e2d{self.app_id}".encode("utf-8") if self.cfg.get("u8_testreq") else f"Q{self.app_id}"))],
                     "2": [("7", "1"), ("16", "0")], "4gf": [("123", "Y"), ("36", (seq if isinstance(seq, int) else E) + 2)],
                     "4rs": [("36", (seq if isinstance(seq, int) else E) + 2)],
                     "5": [("58", "bye")]}.get(t, [("11", f"P-{self.app_id}"), ("55", "ES"), ("54", "1"), ("38", "1"), ("44", "1")])
